@@ -119,8 +119,21 @@ class FaultHook(Hooks):
             raise db_exc.DBDeadlock('injected deadlock (rolled back) at %s'
                                     % what)
         if kind == 'duplicate':
-            raise db_exc.DBDuplicateEntry(columns=['injected'],
-                                          value='injected')
+            # A duplicate-key error means that a concurrent transaction has
+            # just committed a row with the same key.  The statement's own
+            # row is written (standing for the concurrent writer's) and the
+            # error is reported in place of the statement.
+            self._busy = True
+            try:
+                session.execute(self._stmt)
+            finally:
+                self._busy = False
+            cols = [c.name for c in self._stmt.table.primary_key.columns]
+            from sqlalchemy import UniqueConstraint
+            for con in self._stmt.table.constraints:
+                if isinstance(con, UniqueConstraint):
+                    cols = [c.name for c in con.columns]
+            raise db_exc.DBDuplicateEntry(columns=cols, value='injected')
         raise db_exc.DBError('injected database error at %s' % what)
 
     def _db_rollback(self, session):
@@ -135,15 +148,28 @@ class FaultHook(Hooks):
             dbapi = conn.connection.dbapi_connection
             dbapi.rollback()
 
+    # tables whose rows are fully determined by their key, so that "a
+    # concurrent transaction inserted the same key" determines the row
+    DUP_TABLES = ('resource_provider_aggregates', 'resource_provider_traits',
+                  'placement_aggregates', 'projects', 'users',
+                  'consumer_types')
+    _busy = False
+
     def on_execute(self, session, stmt):
+        if self._busy:
+            return
         i = self.statements
         self.statements += 1
         if len(self.injected) >= self.budget:
             return
-        k = symex.choose(1 + len(self.kinds), 'fault')
+        kinds = [k for k in self.kinds if k != 'duplicate' or (
+            isinstance(stmt, sa.sql.dml.Insert) and
+            stmt.table.name in self.DUP_TABLES)]
+        k = symex.choose(1 + len(kinds), 'fault')
         if k == 0:
             return
-        kind = self.kinds[k - 1]
+        kind = kinds[k - 1]
+        self._stmt = stmt
         what = type(stmt).__name__
         self.injected.append((i, kind, what))
         self._fault(session, kind, '%s #%d' % (what, i))
@@ -184,6 +210,9 @@ class _RealSessionProxy:
 
     def connection(self):
         return self._c
+
+    def execute(self, stmt):
+        return self._c.execute(stmt)
 
 
 # --------------------------------------------------------------------------
